@@ -1041,17 +1041,44 @@ pub fn run_scenario(sc: &Scenario, prefix: &[u32], expect_n: &[u32], config_path
         pgcat::query_router::QueryRouter::setup();
         std::fs::write(config_path, &sc.toml).expect("write config");
         let csm: pgcat::pool::ClientServerMap = Arc::new(Mutex::new(std::collections::HashMap::new()));
-        let mut init_error = None;
-        match pgcat::config::parse(config_path).await {
-            Ok(()) => {
-                if !sc.opts.skip_pool_init {
-                    if let Err(e) = pgcat::pool::ConnectionPool::from_config(csm.clone()).await {
-                        init_error = Some(format!("from_config: {:?}", e));
+        // startup runs in its own task so that a panic in config handling is an observation, not a harness crash
+        let init_error = {
+            let csm2 = csm.clone();
+            let path = config_path.to_string();
+            let skip = sc.opts.skip_pool_init;
+            let h = tokio::spawn(async move {
+                match pgcat::config::parse(&path).await {
+                    Ok(()) => {
+                        if !skip {
+                            pgcat::pool::ConnectionPool::from_config(csm2).await.map_err(|e| format!("from_config: {:?}", e))
+                        } else {
+                            Ok(())
+                        }
                     }
+                    Err(e) => Err(format!("parse: {:?}", e)),
+                }
+            });
+            match h.await {
+                Ok(Ok(())) => None,
+                Ok(Err(e)) => Some(e),
+                Err(e) => {
+                    let m = if e.is_panic() {
+                        let p = e.into_panic();
+                        if let Some(s) = p.downcast_ref::<String>() {
+                            s.clone()
+                        } else if let Some(s) = p.downcast_ref::<&str>() {
+                            s.to_string()
+                        } else {
+                            "panic".to_string()
+                        }
+                    } else {
+                        "cancelled".to_string()
+                    };
+                    net.lock().push(Rec::Panic { msg: format!("startup: {}", m) });
+                    Some(format!("PANIC during startup: {}", m))
                 }
             }
-            Err(e) => init_error = Some(format!("parse: {:?}", e)),
-        }
+        };
         let (shutdown_tx, _) = tokio::sync::broadcast::channel::<()>(1);
         let (drain_tx, mut drain_rx) = mpsc::channel::<i32>(2048);
         {
